@@ -10,6 +10,10 @@ import PyrollProofs.HookOrderLemmas
 
 namespace Hooks
 
+/-- what the model consumes from the GENERATED source table: the `discard` of the re-entrancy mark sits in the `finally`
+    clause of `HookFunction.__call__`, so a call that ends in an exception discards its mark as well -/
+@[simp] theorem excUnmark_gen (m : List (Nat × Nat)) (k : Nat × Nat) : excUnmark m k = m.erase k := rfl
+
 /-- whatever happens inside - a value, `None`, an exception, fuel exhausted - a call leaves the marks as it found them -/
 theorem evx_marks (chainOf : Cls → List HF) (fl : Flags) (s : Nat) :
     ∀ (fuel : Nat) (full rest : List HF) (i depth : Nat) (act : List (Nat × Nat)) (tr : List Ev),
@@ -30,7 +34,7 @@ theorem evx_marks (chainOf : Cls → List HF) (fl : Flags) (s : Nat) :
           · exact ih ..
           · split
             · simp
-            · simp only [ih, List.erase_cons_head]
+            · simp only [ih, excUnmark_gen, List.erase_cons_head]
               split
               · rfl
               · split
@@ -38,7 +42,7 @@ theorem evx_marks (chainOf : Cls → List HF) (fl : Flags) (s : Nat) :
                 · exact ih ..
       · split
         · split
-          · simp only [ih, List.erase_cons_head]
+          · simp only [ih, excUnmark_gen, List.erase_cons_head]
             split <;> first | rfl | exact ih ..
           · exact ih ..
         · split
